@@ -18,6 +18,13 @@ that every execution of the chain must keep:
   the input's (each output hyperedge is a rewritten input hyperedge);
 * when the output has as many hyperedges as the input: equality of every
   degree and of the size / shape multiset;
+* when it has r fewer ("two reshuffled hyperedges coincided" is the only
+  licence the statement gives): some r hyperedges of the output listing, taken
+  with repetition as the coinciding copies, must account exactly for the missing
+  memberships and sizes / shapes; with ``n_steps=0`` nothing is reshuffled and
+  the count must be the input's;
+* (own key ``input-modified``, not part of the statement) the argument still
+  lists the same hyperedges, weights and nodes after the call;
 * with ``size=`` / ``order=``: the hyperedges of all other sizes are exactly
   those of the input.
 """
@@ -44,7 +51,19 @@ ASSUMPTIONS = [
     "claims degrees, not the node set: the models drop isolated nodes)",
     "weights and metadata of the input are outside the statement (the models return a fresh "
     "unweighted hypergraph); weighted inputs are generated only to exercise the code path",
-    "label in {'edge','stub'} only; label='vertex' and n_clash are outside the quantifier",
+    "label in {'edge','stub'} only; label='vertex' and n_clash are outside the quantifier; "
+    "n_steps and/or label are omitted in about a tenth of the cases (defaults 1000 / 'edge')",
+    "a lower hyperedge count is accepted only when r = |input| - |output| hyperedges taken with "
+    "repetition from the output listing explain the missing memberships (per (node,size) when "
+    "detailed, per node otherwise; directed: per (node, source/target)) and the missing sizes / "
+    "shapes (exhaustive search; r > 6 is excluded and counted); the API degree sequences of a "
+    "directed output may pair with source/target either way",
+    "n_steps=0: the input hyperedges are distinct and nothing is reshuffled, so the count is kept",
+    "the models are expected not to modify their argument (hyperedges, weights, nodes): checked "
+    "under the separate key 'input-modified' because the statement only presumes it",
+    "directed: in 3 cases of 5 the output is handed back to the model once or twice (inputs whose "
+    "source and target share a node are accepted by DirectedHypergraph); a fed-back output with "
+    "fewer than two hyperedges ends the chain",
     "a size/order argument mostly names a size that has hyperedges; one case in eight names an "
     "absent size (nothing to reshuffle: all hyperedges must be returned intact)",
     "directed hyperedges are generated with disjoint non-empty source and target; whether the "
@@ -138,12 +157,45 @@ def _observe(out, in_nodes, what):
     return [frozenset(e) for e in listing], nodes, api_by_size, api_total, api_sizes
 
 
-def _check_degrees(what, in_edges, out_edges, per_size, api_by_size, api_total, api_sizes):
+def _snapshot(h):
+    """What the caller can see of the input: hyperedges with weights, nodes (order-free)."""
+    return (Counter((tuple(sorted((_py(n) for n in e), key=repr)), h.get_weight(e))
+                    for e in h.get_edges()),
+            Counter(_py(n) for n in h.get_nodes()))
+
+
+def _dsnapshot(h):
+    return (Counter(((tuple(sorted((_py(n) for n in e[0]), key=repr)),
+                      tuple(sorted((_py(n) for n in e[1]), key=repr))), h.get_weight(e))
+                    for e in h.get_edges()),
+            Counter(_py(n) for n in h.get_nodes()))
+
+
+def _input_untouched(what, h, before, snapshot=None):
+    # not part of the statement ("than in the input" presumes an input that is still there);
+    # own key so that a reader can tell it from the degree claims
+    after = (snapshot or _snapshot)(h)
+    require(after == before,
+            lambda: "%s modified its argument: hyperedges (with weights) before %r, after %r; "
+            "nodes before %r, after %r"
+            % (what, sorted(before[0].items(), key=repr), sorted(after[0].items(), key=repr),
+               sorted(before[1], key=repr), sorted(after[1], key=repr)), key="input-modified")
+
+
+def _check_degrees(what, in_edges, out_edges, per_size, api_by_size, api_total, api_sizes,
+                   n_steps=None, ctx=None):
     in_by, in_tot = _degrees(in_edges)
     out_by, out_tot = _degrees(out_edges)
     in_sizes = Counter(len(e) for e in in_edges)
     out_sizes = Counter(len(e) for e in out_edges)
     same_count = len(out_edges) == len(in_edges)
+    if n_steps == 0:
+        # nothing is reshuffled and the hyperedges of the input are distinct: none can coincide
+        require(same_count,
+                lambda: "%s: n_steps=0 reshuffles nothing, yet the output has %d hyperedges and "
+                "the input %d; input %s, output %s"
+                % (what, len(out_edges), len(in_edges), _fmt(in_edges), _fmt(out_edges)),
+                key="count-changed-without-steps")
     views = [("hyperedge listing", out_by, out_tot, out_sizes),
              ("degree()/get_sizes()", api_by_size, api_total, api_sizes)]
     for view, o_by, o_tot, o_sizes in views:
@@ -187,14 +239,89 @@ def _check_degrees(what, in_edges, out_edges, per_size, api_by_size, api_total, 
                     "(%s): input %r, output %r"
                     % (what, len(in_edges), view, dict(in_sizes), dict(o_sizes)),
                     key="size-changed")
+        elif len(out_edges) < len(in_edges):
+            # "no two reshuffled hyperedges coincided" is the only licence for a lower count:
+            # the r missing hyperedges must be copies of hyperedges that are listed
+            r = len(in_edges) - len(out_edges)
+            if r > R_CAP:
+                if ctx is not None:
+                    ctx.exclude("more than %d coinciding hyperedges: deficit not searched" % R_CAP)
+                continue
+            if per_size:
+                cands = [(tuple((n, len(e)) for n in e), len(e)) for e in out_edges]
+                need = Counter(in_by)
+                need.subtract(o_by)
+            else:
+                cands = [(tuple(e), len(e)) for e in out_edges]
+                need = Counter(in_tot)
+                need.subtract(o_tot)
+            need_sizes = Counter(in_sizes)
+            need_sizes.subtract(o_sizes)
+            require(_explain_deficit(cands, need, need_sizes, r),
+                    lambda: "%s: the output lists %d hyperedge(s) fewer than the input, but no "
+                    "%d listed hyperedges (with repetition), taken as the coinciding ones, account "
+                    "for the missing memberships (%s) %r and sizes %r; input %s, output %s"
+                    % (what, r, r, view, sorted((k for k in need.items() if k[1]), key=repr),
+                       {k: v for k, v in need_sizes.items() if v}, _fmt(in_edges),
+                       _fmt(out_edges)), key="deficit-unexplained")
+
+
+R_CAP = 6
+
+
+def _explain_deficit(cands, need_memb, need_shapes, r):
+    """Is there a multiset D of r candidates (repetition allowed) whose memberships add up to
+    need_memb and whose shapes add up to need_shapes?  cands = [(membership keys, shape)].
+    The models return set(final chain state): a lower count can only come from chain
+    hyperedges that coincide with one that IS listed, so the missing memberships must be
+    those of r copies of listed hyperedges.  Depth-first search, pruned by the deficit."""
+    if any(v < 0 for v in need_memb.values()) or any(v < 0 for v in need_shapes.values()):
+        return False
+    if sum(need_shapes.values()) != r:
+        return False
+    need = {k: v for k, v in need_memb.items() if v > 0}
+    shp = {k: v for k, v in need_shapes.items() if v > 0}
+    cands = [(ks, sh) for ks, sh in cands
+             if shp.get(sh, 0) > 0 and all(need.get(k, 0) > 0 for k in ks)]
+
+    def rec(start, left):
+        if left == 0:
+            return not need and not shp
+        for i in range(start, len(cands)):
+            ks, sh = cands[i]
+            if shp.get(sh, 0) <= 0 or any(need.get(k, 0) <= 0 for k in ks):
+                continue
+            for k in ks:
+                need[k] -= 1
+                if not need[k]:
+                    del need[k]
+            shp[sh] -= 1
+            if not shp[sh]:
+                del shp[sh]
+            ok = rec(i, left - 1)
+            for k in ks:
+                need[k] = need.get(k, 0) + 1
+            shp[sh] = shp.get(sh, 0) + 1
+            if ok:
+                return True
+        return False
+
+    return rec(0, r)
 
 
 def _fmt(edges):
     return repr(sorted((tuple(sorted(e, key=repr)) for e in edges), key=lambda t: (len(t), repr(t))))
 
 
+DEFAULT_N_STEPS = 1000   # documented default of configuration_model (used for labels only)
+
+
 def _call_args(case):
-    kw = {"n_steps": case["n_steps"], "label": case["label"]}
+    kw = {}
+    if case["n_steps"] is not None:       # None = argument omitted (default 1000)
+        kw["n_steps"] = case["n_steps"]
+    if case["label"] is not None:         # None = argument omitted (default 'edge')
+        kw["label"] = case["label"]
     if case["detailed"] is not None:
         kw["detailed"] = case["detailed"]
     return kw
@@ -211,15 +338,18 @@ def check_undirected(case, ctx):
         what = "configuration_model(h, %s) [numpy seed %d]" % (
             ", ".join("%s=%r" % kv for kv in kw.items()), k)
         _seed(k)
+        snap = _snapshot(h)
         out = configuration_model(h, **kw)
+        _input_untouched(what, h, snap)
         out_edges, _nodes, a_by, a_tot, a_sizes = _observe(out, in_nodes, what)
         trace.append({"seed": k, "output": sorted(sorted(e, key=repr) for e in out_edges)})
         ctx.trace = {"input": sorted(sorted(e, key=repr) for e in in_edges), "runs": trace}
-        _check_degrees(what, in_edges, out_edges, detailed, a_by, a_tot, a_sizes)
+        _check_degrees(what, in_edges, out_edges, detailed, a_by, a_tot, a_sizes,
+                       n_steps=case["n_steps"], ctx=ctx)
         changed = changed or set(out_edges) != set(in_edges)
         merged = merged or len(out_edges) < len(in_edges)
     _classify(case, ctx, [len(e) for e in case["edges"]], changed, merged)
-    ctx.label("detailed=%r" % (case["detailed"],), "label=" + case["label"])
+    ctx.label("detailed=%r" % (case["detailed"],), "label=%s" % case["label"])
 
 
 def _classify(case, ctx, sizes, changed, merged):
@@ -236,9 +366,17 @@ def _classify(case, ctx, sizes, changed, merged):
         ctx.label("isolated nodes possible")
     if 1 in sizes:
         ctx.label("has singleton")
-    ns = case.get("n_steps")
-    if ns is not None:
-        ctx.label("n_steps=0" if ns == 0 else "n_steps<10" if ns < 10 else "n_steps>=10")
+    if "n_steps" in case:
+        ns = case["n_steps"]
+        if ns is None:
+            ctx.label("n_steps omitted")
+        else:
+            ctx.label("n_steps=0" if ns == 0 else "n_steps<10" if ns < 10 else "n_steps>=10")
+        if case["label"] is None:
+            ctx.label("label omitted")
+        ns = DEFAULT_N_STEPS if ns is None else ns
+    else:
+        ns = None
     ctx.nontrivial((ns is None or ns >= 10) and rep >= 3 and changed)
 
 
@@ -259,7 +397,9 @@ def check_restricted(case, ctx):
         what = "configuration_model(h, %s) [numpy seed %d]" % (
             ", ".join("%s=%r" % kv for kv in kw.items()), k)
         _seed(k)
+        snap = _snapshot(h)
         out = configuration_model(h, **kw)
+        _input_untouched(what, h, snap)
         out_edges, _nodes, a_by, a_tot, a_sizes = _observe(out, in_nodes, what)
         trace.append({"seed": k, "output": sorted(sorted(e, key=repr) for e in out_edges)})
         ctx.trace = {"input": sorted(sorted(e, key=repr) for e in in_edges), "size": size,
@@ -273,7 +413,8 @@ def check_restricted(case, ctx):
                    _fmt(out_edges)), key="others-not-intact")
         # the other sizes are intact, so the per-size claim follows from the total one also
         # when detailed=False
-        _check_degrees(what, in_edges, out_edges, True, a_by, a_tot, a_sizes)
+        _check_degrees(what, in_edges, out_edges, True, a_by, a_tot, a_sizes,
+                       n_steps=case["n_steps"], ctx=ctx)
         sub_in = [e for e in in_edges if len(e) == size]
         sub_out = [e for e in out_edges if len(e) == size]
         changed = changed or set(sub_out) != set(sub_in)
@@ -286,7 +427,8 @@ def check_restricted(case, ctx):
               % ("1" if n_of_size == 1 else "2" if n_of_size == 2 else ">=3"))
     ctx.label("other sizes present" if len(present) > 1 else "uniform input")
     # the engine ORs nontrivial flags: re-state the rule for this clause explicitly
-    ctx.is_nontrivial = bool(case["n_steps"] >= 10 and n_of_size >= 3 and changed
+    ns = DEFAULT_N_STEPS if case["n_steps"] is None else case["n_steps"]
+    ctx.is_nontrivial = bool(ns >= 10 and n_of_size >= 3 and changed
                              and len(present) > 1 and rep >= 3)
 
 
@@ -379,6 +521,14 @@ def _hypergraph_cases(draw, tier, restricted):
         case["detailed"] = draw(st.sampled_from([True, None]))
         case["n_steps"] = draw(st.sampled_from([200, 100, 200]))
         case["staircase"] = True
+    else:
+        # defaults: n_steps (1000) and / or label ('edge') omitted in about a tenth of the cases
+        # (never for the staircase family: 1000 steps of pair redrawing are too slow there)
+        omit = draw(st.sampled_from(["-"] * 14 + ["n", "n", "nl", "l"]))
+        if "n" in omit:
+            case["n_steps"] = None
+        if "l" in omit:
+            case["label"] = None
     case["weights"] = (draw(st.lists(S.weights_int, min_size=len(edges), max_size=len(edges)))
                        if case["weighted"] else [])
     if restricted:
@@ -435,81 +585,131 @@ def _api_directed(h):
 def check_directed(case, ctx):
     from hypergraphx import DirectedHypergraph
     from hypergraphx.generation.directed_configuration_model import directed_configuration_model
-    changed = merged = overlap = False
+    changed = merged = overlap = fed_overlap = False
     trace = []
     for k in case["seeds"]:
         h, in_edges, in_nodes = _build_directed(case)
-        api_in_i, api_in_o = _api_directed(h)
-        what = "directed_configuration_model(h) [random seed %d]" % k
-        _seed(k)
-        out = directed_configuration_model(h)
-        require(isinstance(out, DirectedHypergraph),
-                lambda: "%s returned %r, not a DirectedHypergraph" % (what, type(out).__name__),
-                key="type")
-        listing = []
-        for e in out.get_edges():
-            s, t = e
-            s, t = tuple(_py(x) for x in s), tuple(_py(x) for x in t)
-            require(len(set(s)) == len(s) and len(set(t)) == len(t),
-                    lambda: "%s: output hyperedge %r lists a node twice in its source or target"
-                    % (what, e), key="dup-node")
-            listing.append((frozenset(s), frozenset(t)))
-        require(len(set(listing)) == len(listing),
-                lambda: "%s: get_edges() of the result lists a hyperedge twice: %s"
-                % (what, _dfmt(listing)), key="dup-edge")
-        trace.append({"seed": k, "output": [[sorted(s, key=repr), sorted(t, key=repr)]
-                                            for s, t in listing]})
-        ctx.trace = {"input": [[sorted(s, key=repr), sorted(t, key=repr)] for s, t in in_edges],
-                     "runs": trace}
-        for s, t in listing:
-            for n in s | t:
-                require(n in in_nodes,
-                        lambda: "%s: output hyperedge (%r, %r) contains %r, not a node of the "
-                        "input" % (what, sorted(s, key=repr), sorted(t, key=repr), n),
-                        key="foreign-node")
-        in_src, in_tgt = _ddegrees(in_edges)
-        out_src, out_tgt = _ddegrees(listing)
-        api_out_i, api_out_o = _api_directed(out)
-        in_shapes = Counter((len(s), len(t)) for s, t in in_edges)
-        out_shapes = Counter((len(s), len(t)) for s, t in listing)
-        same = len(listing) == len(in_edges)
-        views = [("source-membership counted from get_edges()", in_src, out_src),
-                 ("target-membership counted from get_edges()", in_tgt, out_tgt),
-                 ("in_degree_sequence()", api_in_i, api_out_i),
-                 ("out_degree_sequence()", api_in_o, api_out_o)]
-        for view, din, dout in views:
-            for n, d in sorted(dout.items(), key=repr):
-                require(d <= din[n],
-                        lambda: "%s: %s of node %r is %d in the output but %d in the input; "
-                        "input %s, output %s" % (what, view, n, d, din[n], _dfmt(in_edges),
-                                                 _dfmt(listing)), key="degree-increased")
+        # feedback rounds: the output of the model (which may hold hyperedges whose source and
+        # target share a node) is handed back to the model as its next input
+        for rnd in range(1 + case.get("feedback", 0)):
+            fed_overlap = fed_overlap or (rnd > 0 and any(s & t for s, t in in_edges))
+            api_in_i, api_in_o = _api_directed(h)
+            what = "directed_configuration_model(%s) [random seed %d]" % (
+                "h" if rnd == 0 else "output of round %d" % rnd, k + rnd)
+            snap = _dsnapshot(h)
+            _seed(k + rnd)
+            out = directed_configuration_model(h)
+            _input_untouched(what, h, snap, _dsnapshot)
+            require(isinstance(out, DirectedHypergraph),
+                    lambda: "%s returned %r, not a DirectedHypergraph" % (what, type(out).__name__),
+                    key="type")
+            listing = []
+            for e in out.get_edges():
+                s, t = e
+                s, t = tuple(_py(x) for x in s), tuple(_py(x) for x in t)
+                require(len(set(s)) == len(s) and len(set(t)) == len(t),
+                        lambda: "%s: output hyperedge %r lists a node twice in its source or target"
+                        % (what, e), key="dup-node")
+                listing.append((frozenset(s), frozenset(t)))
+            require(len(set(listing)) == len(listing),
+                    lambda: "%s: get_edges() of the result lists a hyperedge twice: %s"
+                    % (what, _dfmt(listing)), key="dup-edge")
+            trace.append({"seed": k + rnd, "round": rnd,
+                          "output": [[sorted(s, key=repr), sorted(t, key=repr)]
+                                                for s, t in listing]})
+            ctx.trace = {"input": [[sorted(s, key=repr), sorted(t, key=repr)] for s, t in in_edges],
+                         "runs": trace}
+            for s, t in listing:
+                for n in s | t:
+                    require(n in in_nodes,
+                            lambda: "%s: output hyperedge (%r, %r) contains %r, not a node of the "
+                            "input" % (what, sorted(s, key=repr), sorted(t, key=repr), n),
+                            key="foreign-node")
+            in_src, in_tgt = _ddegrees(in_edges)
+            out_src, out_tgt = _ddegrees(listing)
+            api_out_i, api_out_o = _api_directed(out)
+            in_shapes = Counter((len(s), len(t)) for s, t in in_edges)
+            out_shapes = Counter((len(s), len(t)) for s, t in listing)
+            same = len(listing) == len(in_edges)
+            views = [("source-membership counted from get_edges()", in_src, out_src),
+                     ("target-membership counted from get_edges()", in_tgt, out_tgt),
+                     ("in_degree_sequence()", api_in_i, api_out_i),
+                     ("out_degree_sequence()", api_in_o, api_out_o)]
+            for view, din, dout in views:
+                for n, d in sorted(dout.items(), key=repr):
+                    require(d <= din[n],
+                            lambda: "%s: %s of node %r is %d in the output but %d in the input; "
+                            "input %s, output %s" % (what, view, n, d, din[n], _dfmt(in_edges),
+                                                     _dfmt(listing)), key="degree-increased")
+                if same:
+                    bad = sorted((n for n in set(din) | set(dout) if din[n] != dout[n]), key=repr)
+                    require(not bad,
+                            lambda: "%s: hyperedge count preserved (%d) but %s of node %r is %d in "
+                            "the output, %d in the input; input %s, output %s"
+                            % (what, len(in_edges), view, bad[0], dout[bad[0]], din[bad[0]],
+                               _dfmt(in_edges), _dfmt(listing)), key="degree-changed")
+            extra = out_shapes - in_shapes
+            require(not extra,
+                    lambda: "%s: output has (|source|,|target|) shapes %r that no input hyperedge "
+                    "accounts for; input %s, output %s" % (what, dict(extra), _dfmt(in_edges),
+                                                           _dfmt(listing)), key="shape-changed")
             if same:
-                bad = sorted((n for n in set(din) | set(dout) if din[n] != dout[n]), key=repr)
-                require(not bad,
-                        lambda: "%s: hyperedge count preserved (%d) but %s of node %r is %d in "
-                        "the output, %d in the input; input %s, output %s"
-                        % (what, len(in_edges), view, bad[0], dout[bad[0]], din[bad[0]],
-                           _dfmt(in_edges), _dfmt(listing)), key="degree-changed")
-        extra = out_shapes - in_shapes
-        require(not extra,
-                lambda: "%s: output has (|source|,|target|) shapes %r that no input hyperedge "
-                "accounts for; input %s, output %s" % (what, dict(extra), _dfmt(in_edges),
-                                                       _dfmt(listing)), key="shape-changed")
-        if same:
-            require(out_shapes == in_shapes,
-                    lambda: "%s: hyperedge count preserved (%d) but the multiset of "
-                    "(|source|,|target|) shapes changed: input %r, output %r"
-                    % (what, len(in_edges), dict(in_shapes), dict(out_shapes)),
-                    key="shape-changed")
-        changed = changed or set(listing) != set(in_edges)
-        merged = merged or len(listing) < len(in_edges)
-        overlap = overlap or any(s & t for s, t in listing)
+                require(out_shapes == in_shapes,
+                        lambda: "%s: hyperedge count preserved (%d) but the multiset of "
+                        "(|source|,|target|) shapes changed: input %r, output %r"
+                        % (what, len(in_edges), dict(in_shapes), dict(out_shapes)),
+                        key="shape-changed")
+            elif len(listing) < len(in_edges):
+                # the model returns the set of the final chain hyperedges: a lower count can only
+                # come from chain hyperedges coinciding with one that is listed
+                r = len(in_edges) - len(listing)
+                if r > R_CAP:
+                    ctx.exclude("more than %d coinciding hyperedges: deficit not searched" % R_CAP)
+                else:
+                    cands = [(tuple([(n, "source") for n in s] + [(n, "target") for n in t]),
+                              (len(s), len(t))) for s, t in listing]
+                    need_shapes = Counter(in_shapes)
+                    need_shapes.subtract(out_shapes)
+                    # (in_degree_sequence counts source memberships in this library; the oracle does
+                    # not depend on which of the two sequences is which: either pairing may explain)
+                    for view, pairings in (
+                            ("get_edges()", [((in_src, out_src), (in_tgt, out_tgt))]),
+                            ("in/out_degree_sequence()",
+                             [((api_in_i, api_out_i), (api_in_o, api_out_o)),
+                              ((api_in_o, api_out_o), (api_in_i, api_out_i))])):
+                        needs = []
+                        for d_src, d_tgt in pairings:
+                            need = Counter()
+                            for side, (din, dout) in (("source", d_src), ("target", d_tgt)):
+                                for n in set(din) | set(dout):
+                                    if din[n] != dout[n]:
+                                        need[(n, side)] = din[n] - dout[n]
+                            needs.append(need)
+                        need = needs[0]
+                        require(any(_explain_deficit(cands, nd, need_shapes, r) for nd in needs),
+                                lambda: "%s: the output lists %d hyperedge(s) fewer than the input, "
+                                "but no %d listed hyperedges (with repetition), taken as the "
+                                "coinciding ones, account for the missing memberships (%s) %r and "
+                                "shapes %r; input %s, output %s"
+                                % (what, r, r, view, sorted(need.items(), key=repr),
+                                   {k: v for k, v in need_shapes.items() if v}, _dfmt(in_edges),
+                                   _dfmt(listing)), key="deficit-unexplained")
+            changed = changed or set(listing) != set(in_edges)
+            merged = merged or len(listing) < len(in_edges)
+            overlap = overlap or any(s & t for s, t in listing)
+            if len(listing) < 2:      # the quantifier asks for at least two hyperedges
+                break
+            h, in_edges, in_nodes = out, listing, {_py(n) for n in out.get_nodes()}
     shapes = Counter((len(s), len(t)) for s, t in case["edges"])
     ctx.label("labels=" + case["kind"], "changed" if changed else "unchanged")
     if merged:
         ctx.label("merged(count dropped)")
     if overlap:
         ctx.label("output has a node in both source and target (not claimed either way)")
+    if case.get("feedback"):
+        ctx.label("output fed back as input")
+    if fed_overlap:
+        ctx.label("input (fed back) with a node in both source and target")
     if len(shapes) > 1:
         ctx.label("mixed shapes")
     if case["weighted"]:
@@ -540,6 +740,8 @@ def _directed_cases(draw, tier):
         "all_nodes": draw(st.booleans()),
         "seeds": draw(st.lists(S.seeds, min_size=2 if not big else 3, max_size=3 if not big else 5,
                                unique=True)),
+        # number of times the output is handed back to the model as its next input
+        "feedback": draw(st.sampled_from([0, 0, 1, 1, 2])),
     }
     case["weights"] = (draw(st.lists(S.weights_int, min_size=len(edges), max_size=len(edges)))
                        if case["weighted"] else [])
